@@ -473,7 +473,7 @@ def accept_mods(fmt, doc, rng):
             out.append(([{"path": ["header", "version"], "value": v}], "version-odd:%s" % v[:8]))
     if fmt in JSON_FORMATS:
         out.append(([{"path": ["payload", TABLE_KEY[fmt]], "value": {}}], "empty-table"))
-        for f, v in [("respin", True), ("respin", 2 ** 63), ("respin", -1), ("final", "x"), ("date", "".join(chr(0x660 + int(c)) for c in "20200101"))]:
+        for f, v in [("respin", 2 ** 63), ("respin", -1), ("final", "x"), ("date", "".join(chr(0x660 + int(c)) for c in "20200101"))]:
             out.append(([{"path": ["payload", "compose", f], "value": v}], "legal:%s" % f))
     if fmt == "images":
         out.append(([{"path": ["payload", "images"], "value": []}], "empty-table-list"))
